@@ -905,8 +905,8 @@ func TestCheck(t *testing.T) {
 
 	// ---- part 1c: several connections alive at once in one process, used in
 	// an interleaved way (whatever a connection keeps between calls must be its own)
-	r.Note("interleaved_connections", "additional family (mon.Interleave): 3 real<->real connections alive at once in one bubble, driven round-robin from one goroutine: all endpoints write, then read in pieces of 1..24 bytes, one Read per endpoint per round, write again, drain; every direction carries its own PRF stream")
-	for g := 0; g < r.Pick(12, 200); g++ {
+	r.Note("interleaved_connections", "additional family (mon.Interleave): 3 real<->real connections alive at once in one bubble, driven round-robin from one goroutine: all endpoints write, then read in pieces of 1..24 bytes, one Read per endpoint per round, write again, drain; every direction carries its own PRF stream; every third group instead with a writer and a reader goroutine per endpoint on all processors at once (mon.Parallel, 40..150 kB per direction)")
+	for g := 0; g < r.Pick(18, 240); g++ {
 		g := g
 		r.Case(fmt.Sprintf("interleaved-connections/%03d", g), func(c *mon.Case) {
 			bubble(c, fmt.Sprintf("interleaved group %d", g), func() {
@@ -926,6 +926,15 @@ func TestCheck(t *testing.T) {
 						continue
 					}
 					links = append(links, mon.Link{Name: fmt.Sprintf("conn%d", k), A: cc, B: sc})
+				}
+				if g%3 == 2 {
+					// the same group on all processors at once instead
+					wait := mon.Parallel(c, r, "parallel-connections", links, []int{40000, 150000}[g/3%2], []int{6000, 70000}[g/6%2], r.Sub("il", g))
+					for _, w := range wires {
+						w.Close()
+					}
+					wait()
+					return
 				}
 				mon.Interleave(c, r, "interleaved-connections", links, r.Sub("il", g))
 				for _, w := range wires {
